@@ -243,6 +243,10 @@ pub enum PolSpec {
     PlusOne,
     /// current + k
     Plus(usize),
+    /// current * k (k >= 2): growth by more than a factor of two
+    Times(usize),
+    /// jumps to a fixed large size (or current + 1 above it)
+    JumpTo(usize),
     /// refuse the first n requests, then behave like the inner policy
     RefuseFirst(usize, Box<PolSpec>),
     RefuseAlways,
@@ -266,12 +270,28 @@ impl PolSpec {
             PolSpec::DoubleUntilLimited(t, l) => (0, Box::new(DoubleUntilLimited::new(*t, *l))),
             PolSpec::PlusOne => (0, Box::new(PlusK(1))),
             PolSpec::Plus(k) => (0, Box::new(PlusK(*k))),
+            PolSpec::Times(k) => (0, Box::new(TimesK(*k))),
+            PolSpec::JumpTo(n) => (0, Box::new(JumpTo(*n))),
             PolSpec::RefuseFirst(n, inner) => {
                 let (m, p) = inner.build();
                 (n + m, p)
             }
             PolSpec::RefuseAlways => (usize::MAX, Box::new(PlusK(1))),
         }
+    }
+}
+
+struct TimesK(usize);
+impl BufPolicy for TimesK {
+    fn grow_to(&mut self, current_size: usize) -> Option<usize> {
+        Some(current_size * self.0.max(2))
+    }
+}
+
+struct JumpTo(usize);
+impl BufPolicy for JumpTo {
+    fn grow_to(&mut self, current_size: usize) -> Option<usize> {
+        Some(if current_size < self.0 { self.0 } else { current_size + 1 + current_size / 2 })
     }
 }
 
